@@ -16,8 +16,10 @@ HOOK_COMMITS = []
 
 def lemmas():
     out = []
-    for mod in ("reg_c12", "reg_steps"):
+    for mod in ("reg_c12", "reg_steps", "reg_api"):
         m = __import__(mod)
         out += m.lemmas()
-        PROPS.update(getattr(m, "PROPS", {}))
+    import props
+    PROPS.update(props.PROPS)
+    NOT_APPLICABLE.update(props.NOT_APPLICABLE)
     return out
